@@ -759,8 +759,10 @@ impl Server {
                             should_close = true;
                         }
                         
-                        // Handle SYNC/PSYNC commands that need connection access
-                        if command == "SYNC" || command == "PSYNC" {
+                        // Handle SYNC/PSYNC commands that need connection access.
+                        // A connection that still has to authenticate is not served here:
+                        // its frame goes to process_frame, which answers NOAUTH.
+                        if (command == "SYNC" || command == "PSYNC") && self.connection_is_authorized(id) {
                             sync_response = Some(self.handle_sync_command(&command, parts, id)?);
                         }
                     }
@@ -865,6 +867,14 @@ impl Server {
         }).unwrap_or(Ok(false))?;
         
         Ok(has_pending_writes)
+    }
+    
+    /// True unless a password is configured and this connection has not authenticated
+    fn connection_is_authorized(&self, conn_id: u64) -> bool {
+        self.config.password.is_none()
+            || self.connections.with_connection(conn_id, |conn| {
+                conn.state == ConnectionState::Authenticated
+            }).unwrap_or(false)
     }
     
     /// Process connections with pending writes
